@@ -1060,6 +1060,11 @@ namespace {
                     if ( !no_foreign_answers || own.kind < 0 )
                         return false;
                     const std::size_t len = 1 + x.body.size();
+                    // ... and anything that ends a procedure before the request was on the air
+                    if ( !own.started
+                        && ( ( x.opcode == 0x00 && len == 12 ) || ( x.opcode == 0x0C && len == 6 && !ver_seen ) || ( x.opcode == 0x07 && len == 2 ) || ( x.opcode == 0x11 && len == 3 )
+                            || ( x.opcode == 0x0D && len == 2 ) ) )
+                        return true;
                     if ( x.opcode == 0x00 && len == 12 )
                         return own.kind != APP_CPR;
                     if ( x.opcode == 0x0C && len == 6 )
